@@ -100,6 +100,24 @@ def gen_cfg(rng, it):
     return cfg
 
 
+def count_oracle(cfg, pred, ref, r):
+    """the instance counts a result reports are those of the INPUT (counted here, independently): the reference is never changed;
+    predictions are merged only by a many-to-one / merge matcher"""
+    if cfg.get("input") not in ("matched", "unmatched") or cfg.get("groups") is not None:
+        return []
+    n_p = len([x for x in np.unique(pred) if x != 0])
+    n_r = len([x for x in np.unique(ref) if x != 0])
+    bad = []
+    if r.get("num_ref_instances") != n_r:
+        bad.append(f"num_ref_instances={r.get('num_ref_instances')} but the reference map holds {n_r} instances")
+    one_to_one = cfg["input"] == "matched" or (cfg.get("matcher", "naive") == "naive" and not cfg.get("m2o"))
+    if one_to_one and r.get("num_pred_instances") != n_p:
+        bad.append(f"num_pred_instances={r.get('num_pred_instances')} but the prediction map holds {n_p} instances (one-to-one matching merges nothing)")
+    if not one_to_one and not (r.get("num_pred_instances", 0) <= n_p):
+        bad.append(f"num_pred_instances={r.get('num_pred_instances')} exceeds the {n_p} instances of the prediction map")
+    return bad
+
+
 def decision_oracle(cfg, r):
     """every true positive passes the decision threshold (direction-aware, equality passes)"""
     bad = []
@@ -257,6 +275,7 @@ def run(ctx):
         ctx.count({"cfg": cfg, "pred": pred.tolist(), "ref": ref.tolist()}, r.get("tp", 0) >= 1 and (r["fp"] + r["fn"] >= 1 or "dmetric" in cfg))
         ctx.bump(f"{cfg['input']}/{cfg.get('matcher', '-')}/dm={cfg.get('dmetric')}")
         bad = pipeline.bookkeeping(r)
+        bad += count_oracle(cfg, pred, ref, r)
         # every true positive passes the decision threshold (direction-aware, equality passes) ...
         bad += decision_oracle(cfg, r)
         if bad:
@@ -327,5 +346,7 @@ def replay(path):
     r = impl.canon_result(out["ungrouped"][0])
     print("implementation:", common.jsonable(r))
     bad = pipeline.bookkeeping(r) + decision_oracle(d["cfg"], r)
+    if "pred" in d and "ref" in d:
+        bad += count_oracle(d["cfg"], common.arr_from_json(d["pred"]), common.arr_from_json(d["ref"]), r)
     print("violations:", bad)
     return 1 if bad else 0
